@@ -192,4 +192,13 @@ theorem all_points_used (n total bs : ℕ) (hbs : 1 ≤ bs) (hn : n ≤ total) :
   omega
 
 
+/-- **C14 (normalisation with the regulariser kept)**: for `jitter = j ≥ 0` (the code's `1e-30`) the largest entry of the
+stored matrix is `m/(m+j)` with `m` the largest entry of the raw AGOP, i.e. within `j/m` of one: the idealisation
+`j = 0` of `normalised_max_one` costs at most `1e-30/m`. -/
+theorem normalised_max_with_jitter (M : List (List ℝ)) (j : ℝ) (hj : 0 ≤ j) (hpos : 0 < Xrfmv.Agop.maxEntry M) :
+    Xrfmv.Agop.maxEntry (Xrfmv.Agop.normalise j M) = Xrfmv.Agop.maxEntry M / (Xrfmv.Agop.maxEntry M + j) ∧
+    |Xrfmv.Agop.maxEntry (Xrfmv.Agop.normalise j M) - 1| ≤ j / Xrfmv.Agop.maxEntry M := by
+  have h := Xrfmv.Agop.maxEntry_normalise_jitter M j hj hpos
+  exact ⟨h, by rw [h]; exact Xrfmv.Agop.normalise_jitter_close _ _ hpos hj⟩
+
 end Xrfmv.Props.C14
